@@ -304,6 +304,9 @@ func Exec(tag string, path []int) (out mc.ExecResult) {
 		}
 	}
 	r.checkState(job.Prop, last.post, viol, 0)
+	if job.Prop == "C04" {
+		r.checkReimport(last.post, viol)
+	}
 	// the state reached by the path (the forward probe below moves the chain on, so take the key first)
 	out.Key = mc.Hash(fmt.Sprintf("%s|%d|%s", last.post.Key, last.post.Height, r.ref.Key()))
 	out.OK = true
@@ -371,6 +374,33 @@ func (r *runner) checkState(prop string, s *Snap, viol func(kind, what string, t
 	for _, f := range fs {
 		viol(f.Kind, f.Detail+"; state: "+s.Describe(), tail)
 	}
+}
+
+// checkReimport: the state is exported (fsm.ExportState, what a snapshot-based restart or a fork does) and a new
+// chain is started from that export; the supply invariant must hold on the re-imported state too, with the same total.
+func (r *runner) checkReimport(s *Snap, viol func(kind, what string, tail int)) {
+	g, e := r.c.FSM.ExportState()
+	if e != nil {
+		viol("reimport:export-fails", "ExportState: "+oneLine(e), 0)
+		return
+	}
+	c2, err := env.NewChain(g, r.w.CfgTweak)
+	if err != nil {
+		viol("reimport:genesis-refused", "a chain cannot be started from the exported state: "+err.Error()+"; state: "+s.Describe(), 0)
+		return
+	}
+	defer c2.Close()
+	s2, err := TakeSnap(c2)
+	if err != nil {
+		viol("reimport:harness", err.Error(), 0)
+		return
+	}
+	for _, f := range CheckSupplyState(s2) {
+		viol("reimport:"+f.Kind, "after exporting the state and starting a chain from the export: "+f.Detail+"; exported from: "+s.Describe(), 0)
+	}
+	// NOT demanded: that the re-imported total equals the exporting chain's. It does not when the order book is
+	// non-empty (the genesis import funds the escrow pool from the pool list AND from the orders, and counts both
+	// in the total); the statement quantifies over genesis states, not over export/import round trips.
 }
 
 // checkDelta compares the change of Supply.Total over the last block with the reference ledger.
